@@ -68,15 +68,41 @@ Choose == /\ ~done /\ pend = None /\ Len(hist) < MaxDepth
              \E j \in DOMAIN ms : pend' = ms[j]
           /\ UNCHANGED <<heap, nid, known, hist, done, src>>
 
-IsObsMove(m) == m.v \in {"getname"}
-ObsValue(h, m) ==
+IsObsMove(m) == m.v \in {"getname", "equiv"}
+
+(* C15: two move sequences started from the same table (inner moves have i = 0: "the current table", j = heap index) *)
+ApplyMoveOn(h, t, m, n) ==
+    IF "swap" \in DOMAIN m THEN ApplyMove(Append(h, t), [m EXCEPT !.i = m.j, !.j = Len(h) + 1], n)   \* current table as RIGHT operand
+    ELSE ApplyMove(Append(h, t), [m EXCEPT !.i = Len(h) + 1], n)
+RECURSIVE RunSeq(_, _, _, _)
+RunSeq(h, t, ms, n) ==
+    IF ms = <<>> THEN Ok(t)
+    ELSE LET r == ApplyMoveOn(h, t, ms[1], n) IN
+         IF r.ok THEN (IF HasUndef(r.t) THEN Fail("UNDEF")
+                       ELSE RunSeq(h, r.t, Tail(ms), n + NewCount(Append(h, t), [ms[1] EXCEPT !.i = Len(h) + 1])))
+         ELSE r
+
+RowsByName(t, names) == [r \in DOMAIN t.rows |-> [q \in DOMAIN names |-> t.rows[r][ByName(t)[names[q]]]]]
+CountIn(s, x) == Cardinality({q \in DOMAIN s : s[q] = x})
+BagEq(a, b) == Len(a) = Len(b) /\ \A q \in DOMAIN a : CountIn(a, a[q]) = CountIn(b, a[q])
+(* same visible table up to row order; modcols: also up to column order *)
+SameTable(L, R, modcols) ==
+    /\ IF modcols THEN VisNames(L) = VisNames(R) ELSE NamesOf(L) = NamesOf(R)
+    /\ BagEq(RowsByName(L, NamesOf(L)), RowsByName(R, NamesOf(L)))
+ObsValue(h, m, n) ==
     CASE m.v = "getname" -> IF m.c \in VisSet(h[m.i]) THEN [ok |-> TRUE, val |-> h[m.i].nm[m.c]]
                             ELSE [ok |-> FALSE, cls |-> "ColumnNotFoundError"]
+      [] m.v = "equiv" ->
+            LET L == RunSeq(h, h[m.i], m.lhs, n)
+                R == RunSeq(h, h[m.i], m.rhs, n)
+            IN IF ~L.ok \/ ~R.ok THEN [ok |-> FALSE, cls |-> "UNDEF"]
+               ELSE [ok |-> TRUE, val |-> [lo |-> Obs(L.t), ro |-> Obs(R.t), same |-> SameTable(L.t, R.t, m.modcols)]]
 
 ApplyObs == /\ pend # None /\ IsObsMove(pend)
-            /\ LET r == ObsValue(heap, pend) IN
-               hist' = Append(hist, IF r.ok THEN [m |-> pend, out |-> 0, val |-> r.val]
-                                           ELSE [m |-> pend, out |-> 0, err |-> r.cls])
+            /\ LET r == ObsValue(heap, pend, nid) IN
+               hist' = IF r.ok THEN Append(hist, [m |-> pend, out |-> 0, val |-> r.val])
+                       ELSE IF r.cls = "UNDEF" THEN hist
+                       ELSE Append(hist, [m |-> pend, out |-> 0, err |-> r.cls])
             /\ pend' = None
             /\ UNCHANGED <<heap, nid, known, done, src>>
 
@@ -132,6 +158,8 @@ HeapAppendOnly == [][\A i \in DOMAIN heap : i \in DOMAIN heap' /\ heap'[i] = hea
 
 (* the step that applies pend to heap[pend.i] and appends the result *)
 Applied == pend # None /\ Len(heap') = Len(heap) + 1
+(* C15: every documented equivalence holds in the model for every generated instance *)
+EquivHolds == \A q \in DOMAIN hist : (hist[q].m.v = "equiv" /\ "val" \in DOMAIN hist[q]) => hist[q].val.same
 (* observation actions never change the heap *)
 ObsPure == [][(pend # None /\ IsObsMove(pend)) => heap' = heap]_vars
 In  == heap[pend.i]
